@@ -55,6 +55,10 @@ fn walk(base: &Path, d: &Path, files: &mut Vec<String>, dirs: &mut Vec<String>, 
     }
 }
 
+fn is_link_target(rel: &str) -> bool {
+    ["shared", "store", "linktargets", "realdeep"].iter().any(|d| rel == *d || rel.starts_with(&format!("{d}/")))
+}
+
 const NEW_NAMES: &[&str] = &["extra.css", "new.rs.html", "zz.rs.svg", "_new.scss", "added.js", "README", "n1.png", "late.rs.xml"];
 
 fn choose_edit(r: &mut Rng, indir: &Path, skip: &dyn Fn(&str) -> bool) -> Edit {
@@ -64,7 +68,14 @@ fn choose_edit(r: &mut Rng, indir: &Path, skip: &dyn Fn(&str) -> bool) -> Edit {
     for _ in 0..8 {
         match r.below(8) {
             0 | 1 if !files.is_empty() => return Edit::Modify(r.pick(&files).clone()),
-            2 if !files.is_empty() => return Edit::Delete(r.pick(&files).clone()),
+            2 if !files.is_empty() => {
+                // (the target of a symbolic link is edited but not deleted: a template that is a dangling link makes
+                // compile_templates return Err half-way, which the model does not describe)
+                let f = r.pick(&files).clone();
+                if !is_link_target(&f) {
+                    return Edit::Delete(f);
+                }
+            }
             3 | 4 if !dirs.is_empty() => {
                 let d = r.pick(&dirs).clone();
                 let n = *r.pick(NEW_NAMES);
@@ -85,7 +96,7 @@ fn choose_edit(r: &mut Rng, indir: &Path, skip: &dyn Fn(&str) -> bool) -> Edit {
             6 => return Edit::Add(format!("unrelated{}/{}", r.below(3), r.pick(NEW_NAMES)), r.bytes(4)),
             7 if dirs.len() > 1 => {
                 let d = r.pick(&dirs).clone();
-                if d.contains('/') {
+                if d.contains('/') && !is_link_target(&d) {
                     return Edit::RemoveDir(d);
                 }
             }
@@ -227,6 +238,7 @@ fn child_ops(indir: &Path, script: &[SOp], spell: usize) -> String {
             SOp::A(p, u) => format!("A {} {}", hex(pass(p).as_bytes()), hex(u.as_bytes())),
             SOp::S(d, to) => format!("S {} {}", hex(pass(d).as_bytes()), hex(to.as_bytes())),
             SOp::X(p, _) => format!("X {}", hex(pass(p).as_bytes())),
+            SOp::P => "P".to_string(),
             SOp::B(p, data) => format!("B {} {}", hex(pass(p).as_bytes()), hex(data)),
         };
         out.push_str(&l);
